@@ -19,6 +19,8 @@ XSD = (f'<xs:schema xmlns:xs="{cm.XS}" targetNamespace="{T}" xmlns:t="{T}" eleme
        '<xs:element name="sub" minOccurs="0"><xs:complexType><xs:sequence>'
        '<xs:element name="qty" type="xs:decimal" maxOccurs="unbounded"/></xs:sequence></xs:complexType>'
        '</xs:element>'
+       '<xs:element name="memo" fixed="draft" minOccurs="0"><xs:complexType mixed="true"><xs:sequence>'
+       '<xs:element name="em" type="xs:string" minOccurs="0"/></xs:sequence></xs:complexType></xs:element>'
        '<xs:any namespace="##other" processContents="strict" minOccurs="0" maxOccurs="2"/></xs:sequence>'
        '<xs:attribute name="id" type="xs:int" use="required"/><xs:attribute name="flag" type="xs:boolean"/>'
        '</xs:complexType>'
@@ -34,7 +36,7 @@ XSD11 = XSD.replace('maxOccurs="unbounded"/></xs:sequence></xs:complexType></xs:
                     'inheritable="true"/></xs:complexType></xs:element>', 1)
 assert XSD11 != XSD
 
-TEXT = {"ext": {"ok": "e"}, "title": {"ok": "abc"}, "qty": {"ok": "5", "bad": "x"}, "note": {"ok": "n"}}
+TEXT = {"memo": {"ok": "draft", "bad": "final"}, "ext": {"ok": "e"}, "title": {"ok": "abc"}, "qty": {"ok": "5", "bad": "x"}, "note": {"ok": "n"}}
 ATTR = {"id": {"ok": "7", "bad": "x"}, "flag": {"ok": "true", "bad": "maybe"}, "bogus": {"ok": "1"}}
 
 
